@@ -16,12 +16,8 @@ Parameter with that attribute" (`supers` = what the rest of the MRO holds) -/
 def nearest (supers : List (Option Param)) (s : Slot) : Option Val :=
   (supers.filterMap (slotAt s)).head?
 
-/-- the value the class's own declaration specifies for a slot.  `names` is not a
-constructor argument: it is specified exactly when `objects` is. -/
-def ownSpecified (own : Param) (s : Slot) : Option Val :=
-  match s with
-  | .names => if (own.slots .objects).isSome then own.slots .names else none
-  | s => own.slots s
+/-- the value the class's own declaration specifies for a slot (`none`: left unspecified) -/
+def ownSpecified (own : Param) (s : Slot) : Option Val := own.slots s
 
 def chosen (own : Param) (supers : List (Option Param)) (s : Slot) : Option Val :=
   match ownSpecified own s with
@@ -36,7 +32,7 @@ def specStatic (own : Param) (supers : List (Option Param)) (s : Slot) : Option 
     match typeDefault own.ptype s with
     | .static v => some v.v
     | .computed => none
-    | .missing => if s = .names then some (.dict []) else none
+    | .missing => none
 
 /-- "the Parameter type changed along the way" -/
 def specTypeChanged (own : Param) (supers : List (Option Param)) : Bool := typeChange own.ptype supers
@@ -68,6 +64,7 @@ def expected (own : Param) (supers : List (Option Param)) (s : Slot) : Option Py
     | some v => some v
     | none => (specDefault own supers).len.map fun (n : Nat) => PyV.atom (.int (Int.ofNat n))
   | .selector, .checkOnSet => specCheckOnSet own supers
+  | .selector, .names => some ((specStatic own supers .names).getD (.dict []))
   | .selector, .objects =>
     let base := specBaseObjects own supers
     let d := specDefault own supers
@@ -108,6 +105,8 @@ def defaultOk (rx : String → String → Bool) (p : Param) : Bool :=
 def slotName : Slot → String
   | .default => "default" | .doc => "doc" | .precedence => "precedence" | .constant => "constant"
   | .readonly => "readonly" | .allowNone => "allow_None" | .label => "label" | .bounds => "bounds"
+  | .pickleDefault => "pickle_default_value" | .perInstance => "per_instance" | .allowRefs => "allow_refs"
+  | .nestedRefs => "nested_refs"
   | .softbounds => "softbounds" | .inclusiveBounds => "inclusive_bounds" | .step => "step" | .regex => "regex"
   | .length => "length" | .itemType => "item_type" | .itemClass => "class_" | .objects => "objects"
   | .checkOnSet => "check_on_set" | .names => "names"
